@@ -207,9 +207,12 @@ theorem discRaw_not_calledAddr {E : Env P} {prog : List Op} {catches : Bool} {da
 
 /-! ### hypothesis bundles on the abstract scheme (explicit hypotheses of the theorems, never axioms) -/
 
+/-- signatures have the key's positive, exact length (nothing shorter or longer verifies).  NOT assumed: any relation
+    between the length of a key's ENCODING and its signature length — the real parser accepts compressed-point encodings
+    that are shorter than the signature (found by the second review); see `header_signed_when_encoding_long`. -/
 structure WellSized (S : Scheme) : Prop where
   pos : ∀ kb k, S.parse kb = some k → 0 < S.sigLen k
-  le : ∀ kb k, S.parse kb = some k → S.sigLen k ≤ kb.length + 2
+  exact : ∀ k m s, S.verify k m s = true → s.length = S.sigLen k
 
 def Canon (S : Scheme) : Prop := ∀ kb k, S.parse kb = some k → S.parse k = some k
 
@@ -234,7 +237,9 @@ def DeliveredBy (E : Env P) (dec : Bytes → Nat → Option P) (data k : Bytes) 
     E.S.parse kb = some k ∧                      -- the peer handed to the handler is exactly that key
     data = signed ++ sg ∧ sg.length = E.S.sigLen k ∧   -- the datagram ends in a signature of that key's length
     E.S.verify k signed sg = true ∧              -- valid over EVERY byte that precedes it
-    23 ≤ signed.length ∧                         -- which includes the overlay prefix and the message id
+    25 + kb.length ≤ signed.length + sg.length ∧ -- the key field (offset 23, two length bytes) lies inside the datagram; the
+                                                 --   header is inside `signed` when the encoding is long enough or under
+                                                 --   unforgeability (`header_signed_when_encoding_long`, tampering theorems)
     dec (signed.drop (2 + kb.length)) 23 = some p      -- and every byte the payload decoder reads
 
 /-- from "the generated signature check accepted the key field at 23" to the split of the datagram -/
@@ -242,7 +247,8 @@ theorem checked_core {E : Env P} (hv : E.verifySig = Gen.verifySignature) (hS : 
     {data kb rem k : Bytes} {e : Nat} (hu : unpackVarlenH E.strict data 23 = some (kb, e))
     (hver : E.verifySig E.S kb data = some (true, rem)) (hpk : E.S.parse kb = some k) :
     ∃ signed sg, keyField E.strict data = some kb ∧ data = signed ++ sg ∧ sg.length = E.S.sigLen k ∧
-      E.S.verify k signed sg = true ∧ 23 ≤ signed.length ∧ rem = signed.drop (2 + kb.length) := by
+      E.S.verify k signed sg = true ∧ 25 + kb.length ≤ signed.length + sg.length ∧
+      rem = signed.drop (2 + kb.length) := by
   have hg : Gen.verifySignature E.S kb data = refVerifySignature E.S kb data := rfl
   rw [hv, hg] at hver
   unfold refVerifySignature at hver
@@ -250,10 +256,12 @@ theorem checked_core {E : Env P} (hv : E.verifySig = Gen.verifySignature) (hS : 
   simp only [Option.some.injEq, Prod.mk.injEq] at hver
   have hkf : keyField E.strict data = some kb := by simp [keyField, hu]
   have hpos := hS.pos kb k hpk
-  have hle := hS.le kb k hpk
   have hlen := keyField_length hkf
-  have hn : E.S.sigLen k ≤ data.length := by omega
   rw [slice_signed _ _ hpos, slice_sig _ _ hpos, slice_remainder _ _ _ hpos] at hver
+  have hex := hS.exact _ _ _ hver.1
+  have hn : E.S.sigLen k ≤ data.length := by
+    simp only [List.length_drop] at hex
+    omega
   obtain ⟨hsplit, hsl⟩ := split_at_sig data (E.S.sigLen k) hn
   exact ⟨_, _, hkf, hsplit, hsl, hver.1, by simp; omega, hver.2.symm⟩
 
